@@ -245,8 +245,16 @@ fn id(
     node: dom::XmlNode,
     _: &mut model::Context,
 ) -> error::Result<model::Value> {
-    if node.owner_document().map(|v| v.doc_type()).is_some() {
-        unimplemented!()
+    let document = match node {
+        dom::XmlNode::Document(v) => Some(v),
+        _ => node.owner_document(),
+    };
+
+    // Without a document type declaration no attribute is of type ID.
+    if document.and_then(|v| v.doc_type()).is_some() {
+        Err(error::Error::Unsupported(
+            "function `id` on a document with a document type declaration".to_string(),
+        ))
     } else {
         Ok(model::Value::Node(vec![]))
     }
